@@ -8,7 +8,8 @@
 (* rule is an action here, so call counters of counted fakes evolve in step.    *)
 EXTENDS Injectorpp, Json
 
-CONSTANTS MaxLives, MaxInstalls, FuncSeq, Gates, UserCalls, MaxUserCalls, InstallKinds, Faults
+CONSTANTS MaxLives, MaxInstalls, FuncSeq, Gates, UserCalls, MaxUserCalls, InstallKinds, Faults,
+          SiteReuse      \* TRUE: the same fake! line may be installed again while an earlier installation of it is alive (a loop)
 
 VARIABLES hist, needProbe, ncalls
 avars == <<vars, hist, needProbe, ncalls>>
@@ -74,7 +75,7 @@ NextApi0 ==
                  /\ (st = NoSite) = (n = -1)
                  /\ (kind = "bool" => n = -1)
                  /\ (g = "bool" => n = -1) /\ (g = "null" => n = -1) /\ (g = "abandon" => n = -1)
-                 /\ (st # NoSite => st = Len(Verifiers(T)) + 1)      \* sites are used in order, each once
+                 /\ (st # NoSite => (SiteReuse \/ st = Len(Verifiers(T)) + 1))      \* sites are used in order, each once (unless SiteReuse)
                  /\ (fk = "k2" => \E h \in 1..Len(hist) : hist[h].act = "Install" /\ hist[h].fake = "k1")
                  /\ InstallBegin(T, f, kind, fk, st, n, g)
                  /\ hist' = Append(hist, [act |-> "Install", f |-> f, kind |-> kind, fake |-> fk, site |-> st,
